@@ -150,3 +150,33 @@ Proof.
   intros Hodd Hs. apply N.odd_spec in Hodd. destruct Hodd as [h Hh]. unfold is_low_s.
   destruct (N.leb_spec s (n / 2)); destruct (N.leb_spec (n - s) (n / 2)); simpl; try reflexivity; lia.
 Qed.
+
+(* ---- re-using one request object ------------------------------------------------------------------------ *)
+
+(* the outcome does not depend on what the object's issuer field holds, i.e. on earlier signings - with a signer
+   (the field is overwritten with the signer's fingerprint) and without one (it is cleared) *)
+Lemma resign_any signer kc t iss0 fp fp2 :
+  fst (sign_with_st signer kc t iss0 fp fp2) = sign_with signer kc t fp fp2 /\
+  fst (sign_st signer kc t iss0 fp fp2) = sign signer kc t fp fp2.
+Proof.
+  assert (H : fst (sign_with_st signer kc t iss0 fp fp2) = sign_with signer kc t fp fp2).
+  { unfold sign_with_st, sign_with.
+    destruct (negb (kc =? t_curve t)); [reflexivity|].
+    destruct signer as [ca|].
+    - destruct (t_isCA t); [reflexivity|].
+      destruct (check_ca_constraints ca (t_nb t) (t_na t) (t_groups t) (t_networks t) (t_unsafe t)); reflexivity.
+    - destruct (negb (t_isCA t)); reflexivity. }
+  split; [exact H|]. unfold sign_st, sign. destruct ((t_curve t =? 0) || (t_curve t =? 1)); [exact H|reflexivity].
+Qed.
+
+(* a whole history of signings of one object *)
+Fixpoint issuer_after (iss : str) (h : list (option cert * N * tbs * str * str)) : str :=
+  match h with
+  | [] => iss
+  | (signer, kc, t, fp, fp2) :: r => issuer_after (snd (sign_with_st signer kc t iss fp fp2)) r
+  end.
+
+Lemma resign_independent h signer kc t fp fp2 :
+  fst (sign_with_st signer kc t (issuer_after [] h) fp fp2) = sign_with signer kc t fp fp2 /\
+  fst (sign_st signer kc t (issuer_after [] h) fp fp2) = sign signer kc t fp fp2.
+Proof. apply resign_any. Qed.
